@@ -262,11 +262,16 @@ pub fn stages(ctx: &Ctx) -> Vec<Stage> {
             cfg.dt_max *= rng.r(2.0, 20.0);
             cfg.t1 = cfg.t0 + cfg.dt_max * rng.log10(-0.7, 2.5);
         }
+        if rng.chance(0.25) {
+            // a minimum step that is a sizeable fraction of the maximum (a solve may then legitimately
+            // end in MinimumTimeDeltaExceeded; its prefix is judged all the same)
+            cfg.dt_min = cfg.dt_max * *rng.pick(&[0.1, 0.3, 0.6, 1.0]);
+        }
         let mode = if rng.bool() { DimMode::Static } else { DimMode::Dynamic };
         run_case(rep, solver, mode, &prob, &cfg, 5_000, i % 5 == 0);
     }));
     // boundary sweep: every solver x m x delta x problems
-    let n_prob = tier.pick(2u64, 24u64);
+    let n_prob = tier.pick(10u64, 50u64);
     let per_solver: Vec<(Solver, u64)> = Solver::ALL.iter().map(|s| (*s, (2 * s.history() as u64 + 3 + if s.is_bdf() { 2 } else { 0 }) * SWEEP_DELTAS as u64)).collect();
     let total: u64 = per_solver.iter().map(|p| p.1).sum::<u64>() * n_prob;
     st.push(Stage::new("sweep", total, move |i, rep| {
@@ -288,7 +293,9 @@ pub fn stages(ctx: &Ctx) -> Vec<Stage> {
         let prob = IvpProblem::gen(&mut rng, n, fl);
         let tol = rng.log10(-9.0, -4.0);
         let dt_max = if solver == Solver::Euler { 0.02 } else { dtmax_for(solver, prob.lip, tol, rng.r(0.5, 1.0)) };
-        let dt_min = dt_max * 1e-7;
+        // the minimum step is a free parameter of the configuration: mostly far below the maximum,
+        // but also a sizeable fraction of it, or equal to it (then the step is fixed)
+        let dt_min = dt_max * [1e-7, 1e-7, 0.3, 0.6, 1.0][(pi % 5) as usize];
         let t0 = rng.r(-2.0, 2.0);
         let dt0 = if solver == Solver::Euler { dt_max } else { (dt_max + dt_min) * 0.5 };
         let span = sweep_span(dt0, m, k);
@@ -349,7 +356,7 @@ pub fn stages(ctx: &Ctx) -> Vec<Stage> {
         let prob = IvpProblem::gen(&mut rng, n, fl);
         let tol = rng.log10(-9.0, -4.0);
         let dt_max = dtmax_for(solver, prob.lip, tol, rng.r(0.5, 1.0));
-        let dt_min = dt_max * 1e-7;
+        let dt_min = dt_max * [1e-7, 0.3, 0.6, 1.0][(pi % 4) as usize];
         let t0 = rng.r(-2.0, 2.0);
         let span = sweep_span((dt_max + dt_min) * 0.5, m, k);
         if !(span > 0.0) {
